@@ -123,7 +123,14 @@ def coq_eval(vfile, timeout=900, mem_kb=12_000_000):
     res = {}
     for m in re.finditer(r"\b(r_[A-Za-z0-9_]+) = \[([^\]]*)\]", flat):
         body = m.group(2).strip()
-        res[m.group(1)] = [int(x) for x in re.split(r"[;\s]+", body) if x.strip().lstrip("-").isdigit()] if body else []
+        items = [x.strip() for x in re.split(r"[;\s]+", body) if x.strip()] if body else []
+        vals = []
+        for x in items:
+            x = re.sub(r"%(nat|N|Z)$", "", x).strip("()")
+            if not x.lstrip("-").isdigit():
+                raise ValueError("coq_eval: cannot parse list element %r of %s" % (x, m.group(1)))
+            vals.append(int(x))
+        res[m.group(1)] = vals
     for m in re.finditer(r"\b(r_[A-Za-z0-9_]+) = (true|false|\d+)\b", flat):
         res.setdefault(m.group(1), m.group(2))
     return rc, res, out
